@@ -210,6 +210,15 @@ def _image(spec, ctx, R):
             ctx.check("rgb_roundtrip", np.array_equal(back, mixed), site=f"quat_to_rgb({form_}):channels_on_different_scales",
                       detail={"amps": amps, "changed_channels": [int(c) for c in range(3) if not np.array_equal(back[..., c], mixed[..., c])]})
         ctx.hit("inputs:channels_on_different_scales")
+    # images on the 8-bit scale with slight under- / overshoot (ringing of a restoration), and small generic ranges: max above 1.5, so the default
+    # call returns them unchanged - there is no second "looks normalized" window at [0, 255]
+    for lab_, lo_, hi_ in (("8bit_undershoot", -0.4, 250.0), ("8bit_overshoot", 0.0, 255.4), ("8bit_both", -0.45, 255.45), ("small_range", -0.3, 7.0)):
+        im_ = lo_ + rng.random((H, W, 3)) * (hi_ - lo_)
+        im_[0, 0, 0] = lo_; im_[H - 1, W - 1, 2] = hi_
+        if float(im_.max()) > 1.5:
+            back = Q.quat_to_rgb(Q.rgb_to_quat(im_.copy(), real_part=rp))
+            ctx.check("rgb_roundtrip", np.array_equal(back, im_), site="quat_to_rgb(default):" + lab_,
+                      detail={"range": [float(im_.min()), float(im_.max())], "changed": int(np.sum(back != im_))})
     # one pixel outside the "looks normalized" window in an otherwise [0,1] image: nothing may be clipped
     lone = rng.random((H, W, 3)) * 1.3
     lone[H - 1, W - 1, int(rng.integers(0, 3))] = [1.75, 255.0, -0.75][spec["idx"] % 3]
